@@ -1,5 +1,6 @@
 import TracklibVerif.Model.Cinematics
 import TracklibVerif.Gen.ObsCoords
+import TracklibVerif.Gen.Analytics
 /-! Tie for C17: the planimetric distance between two fixes — `ENUCoords.distance2DTo` with the operator
 `ENUCoords.__sub__` and `ENUCoords.norm2D` it is made of — translated from the CURRENT `tracklib/core/obs_coords.py`
 equals the model's `TV.Cinematics.dist2D` (the quantity `ds`, `computeAbsCurv` and `speed` accumulate).
@@ -26,4 +27,210 @@ theorem tie_distance2DTo (sqrt : α → α) (pow : α → α → α) (hsq : ∀ 
     bind_ok, hsq, Cinematics.dist2D]
 
 end
+
+/-! ## `ds(track, i)` and `speed(track, i)` of `tracklib/algo/analytics.py`
+
+The track is seen through the declared view of an observation, `(E, N, U, t)` with `t = timestamp.toAbsTime()`;
+the model reads the planimetric positions `xyOf track` and the times `tsOf track`. The index is a Python `int`
+(`Int`), the model's a `Nat`: the theorems take `i = (k : Int)`, `k : Nat` — every index `addAnalyticalFeature`
+passes. The model's `none` stands both for `NAN` and for the `IndexError` that `addAnalyticalFeature` turns into
+`NAN`: the theorems say which of the two the code produces, and when.
+
+Hypotheses: `hsq` — `x ** 2 = x * x` (as for `tie_distance2DTo`); `hbeq` — the model's `==` on scalars is Python's
+`==` on floats, `Py.feq` (true of IEEE doubles and of an ordered field). -/
+section analytics
+variable {α : Type} [Add α] [Sub α] [Mul α] [Div α] [OfNat α 0] [OfNat α 2] [BEq α] [LE α] [DecidableLE α]
+
+/-- the planimetric positions of the observations (what the model calls `xy`) -/
+def xyOf (track : List (α × α × α × α)) : List (α × α) := track.map (fun o => (o.1, o.2.1))
+/-- the times `timestamp.toAbsTime()` of the observations (what the model calls `ts`) -/
+def tsOf (track : List (α × α × α × α)) : List α := track.map (fun o => o.2.2.2)
+
+theorem xyOf_eq (track : List (α × α × α × α)) : xyOf track = track.map (fun o => (o.1, o.2.1)) := rfl
+theorem tsOf_eq (track : List (α × α × α × α)) : tsOf track = track.map (fun o => o.2.2.2) := rfl
+
+/-- `tie_distance2DTo` on components -/
+theorem dist_comp (sqrt : α → α) (pow : α → α → α) (hsq : ∀ x : α, pow x 2 = x * x) (e1 n1 u1 e2 n2 u2 : α) :
+    Gen.ObsCoords.ENUCoords_distance2DTo sqrt pow e1 n1 u1 e2 n2 u2
+      = .ok (Cinematics.dist2D sqrt (e1, n1) (e2, n2)) :=
+  tie_distance2DTo sqrt pow hsq (e1, n1) (e2, n2) u1 u2
+
+/-- `L[i]` for an `i` that is the natural number `k < len(L)` -/
+theorem getIdx_ok {β : Type} {l : List β} {i : Int} (k : Nat) (hi : i = (k : Int)) (h : k < l.length) :
+    Py.getIdx l i = .ok l[k] := by
+  subst hi; rw [getIdx_natCast]; exact getItem_eq_ok (List.getElem?_eq_getElem h)
+/-- `L[i]` for an `i` that is the natural number `k ≥ len(L)` -/
+theorem getIdx_err {β : Type} {l : List β} {i : Int} (k : Nat) (hi : i = (k : Int)) (h : l.length ≤ k) :
+    Py.getIdx l i = .error .index := by
+  subst hi; rw [getIdx_natCast]; exact getItem_eq_error (List.getElem?_eq_none h)
+
+/-- the model's `ds` at an index `k ≥ 1`, on the view -/
+theorem dsAt_succ (sqrt : α → α) (track : List (α × α × α × α)) (j : Nat) :
+    Cinematics.dsAt sqrt (xyOf track) (j + 1)
+      = if h : j + 1 < track.length then
+          some (Cinematics.dist2D sqrt (track[j + 1].1, track[j + 1].2.1) (track[j].1, track[j].2.1))
+        else none := by
+  unfold Cinematics.dsAt xyOf
+  rw [if_neg (by omega), Nat.add_sub_cancel, List.getElem?_map, List.getElem?_map]
+  by_cases h : j + 1 < track.length
+  · rw [dif_pos h, List.getElem?_eq_getElem h, List.getElem?_eq_getElem (by omega : j < track.length)]; rfl
+  · rw [dif_neg h, List.getElem?_eq_none (by omega)]; rfl
+
+/-- **`ds(track, k)`, every track, every index `k ≥ 0`**: the code returns the model's value when the model has one,
+and raises `IndexError` exactly when the model says `none` (the model's `none` is never a `NAN` of `ds`) -/
+theorem tie_ds (sqrt : α → α) (pow : α → α → α) (hsq : ∀ x : α, pow x 2 = x * x)
+    (track : List (α × α × α × α)) (k : Nat) :
+    Gen.Analytics.analytics_ds sqrt pow track (k : Int)
+      = match Cinematics.dsAt sqrt (xyOf track) k with
+        | some v => .ok v
+        | none => .error .index := by
+  unfold Gen.Analytics.analytics_ds
+  cases k with
+  | zero => rfl
+  | succ j =>
+    rw [ite_neg' (by simp only [decide_eq_true_eq]; omega), dsAt_succ]
+    by_cases h : j + 1 < track.length
+    · rw [getIdx_ok (j + 1) rfl h, getIdx_ok j (by omega) (by omega), dif_pos h]
+      simp only [bind_ok, Gen.Obs.Obs_distance2DTo, dist_comp sqrt pow hsq]
+    · rw [getIdx_err (j + 1) rfl (by omega), dif_neg h]; rfl
+
+/-- when the model's `ds` is `none`: the index is `≥ 1` and past the end -/
+theorem dsAt_eq_none_iff (sqrt : α → α) (track : List (α × α × α × α)) (k : Nat) :
+    Cinematics.dsAt sqrt (xyOf track) k = none ↔ k ≠ 0 ∧ track.length ≤ k := by
+  cases k with
+  | zero => simp [Cinematics.dsAt]
+  | succ j =>
+    rw [dsAt_succ]
+    by_cases h : j + 1 < track.length
+    · rw [dif_pos h]; simp; omega
+    · rw [dif_neg h]; simp; omega
+
+/-- `ds(track, k)` in the shape "value ⇒ value" -/
+theorem tie_ds_some (sqrt : α → α) (pow : α → α → α) (hsq : ∀ x : α, pow x 2 = x * x)
+    (track : List (α × α × α × α)) (k : Nat) (v : α) (h : Cinematics.dsAt sqrt (xyOf track) k = some v) :
+    Gen.Analytics.analytics_ds sqrt pow track (k : Int) = .ok v := by
+  rw [tie_ds sqrt pow hsq, h]
+
+/-- `ds(track, k)` for `k` in `range(len(track))` (the indices `addAnalyticalFeature` passes) never raises and is the
+model's value -/
+theorem tie_ds_inrange (sqrt : α → α) (pow : α → α → α) (hsq : ∀ x : α, pow x 2 = x * x)
+    (track : List (α × α × α × α)) (k : Nat) (hk : k < track.length) :
+    ∃ v, Cinematics.dsAt sqrt (xyOf track) k = some v ∧ Gen.Analytics.analytics_ds sqrt pow track (k : Int) = .ok v := by
+  cases hd : Cinematics.dsAt sqrt (xyOf track) k with
+  | none => have := (dsAt_eq_none_iff sqrt track k).mp hd; omega
+  | some v => exact ⟨v, rfl, tie_ds_some sqrt pow hsq track k v hd⟩
+
+/-- Python's negative indices (NOT covered by the model, whose index is a `Nat`): `ds(track, -j)` for
+`1 ≤ j < len(track)` is `ds(track, len(track) - j)` -/
+theorem ds_neg (sqrt : α → α) (pow : α → α → α) (track : List (α × α × α × α)) (j : Nat)
+    (h1 : 1 ≤ j) (h2 : j < track.length) :
+    Gen.Analytics.analytics_ds sqrt pow track (-(j : Int))
+      = Gen.Analytics.analytics_ds sqrt pow track ((track.length - j : Nat) : Int) := by
+  have hg : ∀ i : Int, i < 0 → 0 ≤ (track.length : Int) + i →
+      Py.getIdx track i = Py.getIdx track ((track.length : Int) + i) := by
+    intro i hi hi'
+    unfold Py.getIdx
+    rw [if_neg (by omega), if_pos (by exact hi'), if_pos (by exact hi')]
+    rfl
+  unfold Gen.Analytics.analytics_ds
+  rw [ite_neg' (by simp only [decide_eq_true_eq]; omega), ite_neg' (by simp only [decide_eq_true_eq]; omega),
+    hg (-(j : Int)) (by omega) (by omega), hg (-(j : Int) - 1) (by omega) (by omega)]
+  have e1 : (track.length : Int) + -(j : Int) = ((track.length - j : Nat) : Int) := by omega
+  have e2 : (track.length : Int) + (-(j : Int) - 1) = ((track.length - j : Nat) : Int) - 1 := by omega
+  rw [e1, e2]
+
+/-- the model's `speedBetween` on the view, both fixes present -/
+theorem speedBetween_ok (sqrt : α → α) (track : List (α × α × α × α)) (a b : Nat)
+    (ha : a < track.length) (hb : b < track.length) :
+    Cinematics.speedBetween sqrt (xyOf track) (tsOf track) a b
+      = Cinematics.quot (Cinematics.dist2D sqrt (track[a].1, track[a].2.1) (track[b].1, track[b].2.1))
+          (track[a].2.2.2 - track[b].2.2.2) := by
+  unfold Cinematics.speedBetween xyOf tsOf
+  simp only [List.getElem?_map, List.getElem?_eq_getElem ha, List.getElem?_eq_getElem hb, Option.map_some]
+/-- the model's `speedBetween` on the view, the later fix missing -/
+theorem speedBetween_none (sqrt : α → α) (track : List (α × α × α × α)) (a b : Nat) (ha : track.length ≤ a) :
+    Cinematics.speedBetween sqrt (xyOf track) (tsOf track) a b = none := by
+  unfold Cinematics.speedBetween xyOf tsOf
+  simp only [List.getElem?_map, List.getElem?_eq_none ha, Option.map_none]
+
+/-- the end of the three branches of `speed`: `NAN` if `dt == 0` else `ds / dt`, against the model's `quot` -/
+theorem quot_tie (nan : α) (hbeq : ∀ a b : α, (a == b) = Py.feq a b) (d dt : α) :
+    (if Py.feq dt (0 : α) then (.ok nan : Py.M α) else Py.bind (Py.fdiv d dt) fun x => .ok x)
+      = .ok ((Cinematics.quot d dt).getD nan) := by
+  unfold Cinematics.quot
+  rw [hbeq]
+  by_cases hz : Py.feq dt (0 : α) = true
+  · rw [ite_pos' hz, ite_pos' hz]; rfl
+  · rw [ite_neg' hz, ite_neg' hz, Py.fdiv, ite_neg' hz]; rfl
+
+/-- **`speed(track, k)`, every track, every index `k ≥ 0`**: the code raises `IndexError` exactly when `k` is past the
+end or the track has fewer than two observations (the model then says `none`, see `speedAt_out`); otherwise it returns
+the model's value, `NAN` standing for the model's `none` (which then means: elapsed time `== 0`) -/
+theorem tie_speed (nan : α) (sqrt : α → α) (pow : α → α → α) (hsq : ∀ x : α, pow x 2 = x * x)
+    (hbeq : ∀ a b : α, (a == b) = Py.feq a b) (track : List (α × α × α × α)) (k : Nat) :
+    Gen.Analytics.analytics_speed nan sqrt pow track (k : Int)
+      = if k < track.length ∧ 2 ≤ track.length then
+          .ok ((Cinematics.speedAt sqrt (xyOf track) (tsOf track) k).getD nan)
+        else .error .index := by
+  have hlen : (xyOf track).length = track.length := by rw [xyOf_eq, List.length_map]
+  have hN : Py.len track = (track.length : Int) := rfl
+  unfold Gen.Analytics.analytics_speed Cinematics.speedAt
+  simp only [hlen]
+  by_cases h0 : k = 0
+  · subst h0
+    rw [ite_pos' (by simp only [decide_eq_true_eq]; rfl), if_pos rfl]
+    by_cases h : 2 ≤ track.length
+    · rw [if_pos ⟨by omega, h⟩, getIdx_ok (l := track) (i := 1) 1 rfl (by omega),
+        getIdx_ok (l := track) (i := 0) 0 rfl (by omega), speedBetween_ok sqrt track 1 0 (by omega) (by omega)]
+      simp only [bind_ok, dist_comp sqrt pow hsq, Gen.ObsTime.ObsTime_sub]
+      exact quot_tie nan hbeq _ _
+    · rw [if_neg (by omega), getIdx_err (l := track) (i := 1) 1 rfl (by omega)]; rfl
+  · rw [ite_neg' (by simp only [decide_eq_true_eq]; omega), if_neg h0]
+    by_cases h1 : k = track.length - 1
+    · have h2 : 2 ≤ track.length := by omega
+      rw [ite_pos' (by simp only [decide_eq_true_eq]; omega), if_pos h1, if_pos ⟨by omega, h2⟩,
+        getIdx_ok (l := track) (i := Py.len track - 1) (track.length - 1) (by omega) (by omega),
+        getIdx_ok (l := track) (i := Py.len track - 2) (track.length - 2) (by omega) (by omega),
+        speedBetween_ok sqrt track _ _ (by omega) (by omega)]
+      simp only [bind_ok, dist_comp sqrt pow hsq, Gen.ObsTime.ObsTime_sub]
+      exact quot_tie nan hbeq _ _
+    · rw [ite_neg' (by simp only [decide_eq_true_eq]; omega), if_neg h1]
+      by_cases h : k + 1 < track.length
+      · rw [if_pos ⟨by omega, by omega⟩, getIdx_ok (l := track) (i := (k : Int) + 1) (k + 1) (by omega) h,
+          getIdx_ok (l := track) (i := (k : Int) - 1) (k - 1) (by omega) (by omega),
+          speedBetween_ok sqrt track _ _ h (by omega)]
+        simp only [bind_ok, dist_comp sqrt pow hsq, Gen.ObsTime.ObsTime_sub]
+        exact quot_tie nan hbeq _ _
+      · rw [if_neg (by omega), getIdx_err (l := track) (i := (k : Int) + 1) (k + 1) (by omega) (by omega)]; rfl
+
+/-- where `speed` raises `IndexError` (index past the end, or fewer than two observations) the model says `none` -/
+theorem speedAt_out (sqrt : α → α) (track : List (α × α × α × α)) (k : Nat)
+    (h : ¬ (k < track.length ∧ 2 ≤ track.length)) :
+    Cinematics.speedAt sqrt (xyOf track) (tsOf track) k = none := by
+  have hlen : (xyOf track).length = track.length := by rw [xyOf_eq, List.length_map]
+  unfold Cinematics.speedAt
+  simp only [hlen]
+  by_cases h0 : k = 0
+  · rw [if_pos h0]; exact speedBetween_none sqrt track 1 0 (by omega)
+  · rw [if_neg h0, if_neg (by omega)]; exact speedBetween_none sqrt track (k + 1) (k - 1) (by omega)
+
+/-- `speed(track, k)` in the shape "value ⇒ value" -/
+theorem tie_speed_some (nan : α) (sqrt : α → α) (pow : α → α → α) (hsq : ∀ x : α, pow x 2 = x * x)
+    (hbeq : ∀ a b : α, (a == b) = Py.feq a b) (track : List (α × α × α × α)) (k : Nat) (v : α)
+    (h : Cinematics.speedAt sqrt (xyOf track) (tsOf track) k = some v) :
+    Gen.Analytics.analytics_speed nan sqrt pow track (k : Int) = .ok v := by
+  rw [tie_speed nan sqrt pow hsq hbeq]
+  by_cases hr : k < track.length ∧ 2 ≤ track.length
+  · rw [if_pos hr, h]; rfl
+  · rw [speedAt_out sqrt track k hr] at h; exact nomatch h
+
+/-- `speed(track, k)` where the model says `none`: `NAN` in range (and at least two observations), `IndexError` otherwise -/
+theorem tie_speed_none (nan : α) (sqrt : α → α) (pow : α → α → α) (hsq : ∀ x : α, pow x 2 = x * x)
+    (hbeq : ∀ a b : α, (a == b) = Py.feq a b) (track : List (α × α × α × α)) (k : Nat)
+    (h : Cinematics.speedAt sqrt (xyOf track) (tsOf track) k = none) :
+    Gen.Analytics.analytics_speed nan sqrt pow track (k : Int)
+      = if k < track.length ∧ 2 ≤ track.length then .ok nan else .error .index := by
+  rw [tie_speed nan sqrt pow hsq hbeq, h]; rfl
+
+end analytics
 end TV.Tie.C17
